@@ -159,6 +159,13 @@ impl Pool {
             .map_err(|e| Error::emit("Creating table schema_version", &e))?;
 
         loop {
+            /* A migration step and the record of having done it are one transaction: a crash
+             * between the two would leave a database that no upgrade path accepts any more.
+             */
+            let tx = self
+                .conn
+                .unchecked_transaction()
+                .map_err(|e| Error::emit("Starting schema upgrade", &e))?;
             let upgraded_to_version = match self
                 .conn
                 .query_row(
@@ -187,6 +194,8 @@ impl Pool {
                     rusqlite::params![DB_SCHEMA_KEY, upgraded_to_version],
                 )
                 .map_err(|e| Error::emit("Creating updating schema version", &e))?;
+            tx.commit()
+                .map_err(|e| Error::emit("Committing schema upgrade", &e))?;
         }
         Ok(self)
     }
